@@ -6,6 +6,8 @@ REPO = os.environ.get("VERIF_REPO", "/repo")
 SPEC = os.path.join(ROOT, "spec")
 CFG = os.path.join(ROOT, "cfg")
 HARNESS = os.path.join(ROOT, "harness")
+# evidence/ and replays/ live here; only tools/cross_seeds.py (runs against patched scratch worktrees) overrides it
+OUT = os.environ.get("VERIF_OUT") or ROOT
 NCPU = os.cpu_count() or 4
 
 GOENV = dict(os.environ, GOFLAGS="-mod=mod", GOPROXY="off", GOSUMDB="off", GOTOOLCHAIN="local")
@@ -233,10 +235,10 @@ def match_finding(prop, viol, findings):
 
 
 def write_replay(prop, viol):
-    os.makedirs(os.path.join(ROOT, "replays"), exist_ok=True)
+    os.makedirs(os.path.join(OUT, "replays"), exist_ok=True)
     body = json.dumps(viol, sort_keys=True, indent=1)
     h = hashlib.sha1(body.encode()).hexdigest()[:12]
-    p = os.path.join(ROOT, "replays", "%s-%s.json" % (prop, h))
+    p = os.path.join(OUT, "replays", "%s-%s.json" % (prop, h))
     open(p, "w").write(body)
     return p
 
@@ -290,8 +292,8 @@ class Report:
         ev = {"property_id": self.prop, "tier": self.tier, "seed": seed(), "level": self.level,
               "coverage": self.cov, "assumptions": self.assumptions, "wall_s": round(time.time() - self.t0, 1),
               "violations": len(self.violations), "known_findings": [k["key"] for k in self.known], "notes": self.notes}
-        os.makedirs(os.path.join(ROOT, "evidence"), exist_ok=True)
-        json.dump(ev, open(os.path.join(ROOT, "evidence", self.prop + ".json"), "w"), indent=1, sort_keys=True)
+        os.makedirs(os.path.join(OUT, "evidence"), exist_ok=True)
+        json.dump(ev, open(os.path.join(OUT, "evidence", self.prop + ".json"), "w"), indent=1, sort_keys=True)
         for k in self.known:
             log("KNOWN-FINDING: property=%s %s: %s" % (self.prop, k["key"], k["what"]))
         seen = set()
